@@ -427,6 +427,7 @@ class C18Monitor(Monitor):
         self.nlog = 0
         self.any_active = False
         self.all_asleep = False
+        self.all_collapsed_de = False
 
     def on(self, kind, tree, info):
         x = self.x
@@ -441,6 +442,11 @@ class C18Monitor(Monitor):
             self.any_active = any(v["active"] for v in c.values())
             act = [v for v in c.values() if v["active"]]
             self.all_asleep = bool(act) and all(v["hib"] for v in act)
+            # differential-evolution demes whose members are all the same point (difference vectors are all zero)
+            running = [d for _, d in tree.all_demes if d.is_active and not (x.w.hib and hib_flag(d) is True)]
+            self.all_collapsed_de = bool(running) and all(
+                type(d).__name__ in ("DEDeme", "SHADEDeme") and len({np.asarray(i.genome, dtype=float).tobytes() for i in d.current_population}) == 1 for d in running
+            )
             self.round = None
         elif kind == "boundary":
             cur = census(tree, digests=True)
@@ -461,6 +467,11 @@ class C18Monitor(Monitor):
                 x.violate(
                     "C18/stall:hibernation-on-all-active-demes-hibernating",
                     "a metaepoch passed without any objective evaluation: every active deme was hibernating at its start",
+                )
+            elif self.all_collapsed_de:
+                x.violate(
+                    "C18/stall:every-running-deme-is-a-differential-evolution-deme-with-identical-members",
+                    "a metaepoch passed without any objective evaluation: every running deme was a DE / SHADE deme whose population had collapsed to one point",
                 )
             else:
                 x.violate("C18/stall:other", "a metaepoch passed without any objective evaluation while a deme was active and awake")
